@@ -34,7 +34,7 @@ def exact_mass(rng, lo, hi):
 
 
 def cases(tier, rng):
-    n = 160 if tier == "quick" else 4000
+    n = 160 if tier == "quick" else 20000
     out = []
     for i in range(n):
         scheme = cards.pick(rng, ["ZM-VFNS"] * 3 + cards.SCHEMES)
